@@ -32,7 +32,7 @@ var (
 // Load reads a replay file (native mode only).
 func Load(path string) error {
 	cur = replayFile{}
-	failures, observed, tags = nil, nil, nil
+	failures, observed, tags, events = nil, nil, nil, nil
 	b, err := os.ReadFile(path)
 	if err != nil {
 		return err
